@@ -523,6 +523,9 @@ class ExprMixin:
         kw = dict((k, v) for k, v in kws if k is not None)
         a0 = vals[0] if vals else A.fresh()
         spec = N.NP_FUNCS.get(name)
+        if name.endswith(".at") or name in ("random.shuffle",):
+            self.write_mem(a0, e, note=f"np.{name} works in place on its first argument")
+            return A.NONE_AV
         out_av = kw.get("out")
         if out_av is not None and out_av.kind != A.NONE:
             targets = A.elem_of(out_av) if out_av.kind in (A.TUPLE, A.LIST) else out_av
